@@ -3,6 +3,7 @@
 import PjrpcModel.Driver.SuiteMsg
 import PjrpcModel.Driver.SuiteDispatch
 import PjrpcModel.Driver.SuiteRegistry
+import PjrpcModel.Driver.SuiteAsync
 open Pjrpc.Driver
 
 def handle (line : String) : String :=
@@ -14,6 +15,7 @@ def handle (line : String) : String :=
       | "msg" => suiteMsg c
       | "dispatch" => suiteDispatch c
       | "registry" => suiteRegistry c
+      | "async" => suiteAsync c
       | s => throw s!"unknown suite {s}"
     match r with
     | .ok j => j.compress
